@@ -26,7 +26,7 @@ pub struct FacebookScopeMapping {
 // It has a list of metadata, the first one of which is a *function map*,
 // containing scope information as a nested source map.
 // See the decoder in `hermes.rs` for details.
-pub type FacebookSources = Option<Vec<Option<Vec<FacebookScopeMapping>>>>;
+pub type FacebookSources = Option<Vec<Option<Vec<Option<FacebookScopeMapping>>>>>;
 
 /// Writes a debug id in a form that `DebugId` parses again: its `Display` drops the age of a
 /// PDB 2.0 identifier when that is zero, which leaves eight digits that are not a valid id.
